@@ -144,7 +144,7 @@ func runC17(c *Ctx) {
 	for _, st := range []struct {
 		n string
 		f func(*Ctx)
-	}{{"decoder", c17Decoder}, {"hooks", c17Hooks}, {"fillconf", c17FillConf}, {"tags", c17Tags}, {"placeholders", c17Placeholders}} {
+	}{{"decoder", c17Decoder}, {"hooks", c17Hooks}, {"fillconf", c17FillConf}, {"tags", c17Tags}, {"placeholders", c17Placeholders}, {"validators", c17CustomValidators}} {
 		t0 := time.Now()
 		st.f(c)
 		c.Note("stage %s: %.1fs", st.n, time.Since(t0).Seconds())
@@ -1230,4 +1230,113 @@ func c17IsTypeKeyTest(fn *ssa.Function, ki, depth int) bool {
 		}
 	}
 	return n > 0
+}
+
+// ---- O17.10: the custom validators compare the right way round
+
+func c17CustomValidators(c *Ctx) {
+	c.Rule("O17.10", "pandora's own range validators mean what their names say: min-time / min-size accept exactly the values with limit <= value, max-time / max-size those with value <= limit (non-strict: `min-time=1ms` admits 1ms), where value is the validated field asserted to its type and limit is the tag parameter parsed by the same helper; a value of another type or an unparsable limit is rejected")
+	P := c.P
+	n := 0
+	for _, v := range []struct {
+		name string
+		min  bool
+	}{{"MinTimeValidation", true}, {"MaxTimeValidation", false}, {"MinSizeValidation", true}, {"MaxSizeValidation", false}} {
+		fn := P.Func("core/config", "", v.name)
+		if fn == nil {
+			c.Anchor("O17.10", "core/config."+v.name)
+			continue
+		}
+		n++
+		// the extraction helper call: (actual, limit, ok)
+		var get *ssa.Call
+		EachInstr(fn, func(in ssa.Instruction) {
+			if cl, ok := in.(*ssa.Call); ok && cl.Call.StaticCallee() != nil && PkgOf(cl.Call.StaticCallee()) == PkgOf(fn) && cl.Call.StaticCallee().Signature.Results().Len() == 3 {
+				get = cl
+			}
+		})
+		var cmp *ssa.BinOp
+		EachInstr(fn, func(in ssa.Instruction) {
+			if b, ok := in.(*ssa.BinOp); ok {
+				switch b.Op {
+				case token.LSS, token.LEQ, token.GTR, token.GEQ:
+					cmp = b
+				}
+			}
+		})
+		if get == nil || cmp == nil {
+			c.Bad("O17.10", fk(fn)+":compares-value-with-limit", fn.Pos(), "no (value, limit, ok) helper call followed by one comparison")
+			continue
+		}
+		f := Fact{Op: cmp.Op, X: cmp.X, Y: cmp.Y}.Canon() // X <= Y or X < Y
+		isRes := func(v ssa.Value, idx int) bool { return DerivesOnly(v, false, IsResultOf(get, idx)) }
+		okDir := f.Op == token.LEQ && ((v.min && isRes(f.X, 1) && isRes(f.Y, 0)) || (!v.min && isRes(f.X, 0) && isRes(f.Y, 1)))
+		// the result is that comparison, and only where ok holds
+		okGuard := HasBoolFact(BoolFactsAt(cmp), func(x ssa.Value) bool { return isRes(x, 2) }, true)
+		okRet := true
+		EachInstr(fn, func(in ssa.Instruction) {
+			ret, isR := in.(*ssa.Return)
+			if !isR || len(ret.Results) != 1 {
+				return
+			}
+			for _, r := range Roots(ret.Results[0], false) {
+				if r == ssa.Value(cmp) {
+					continue
+				}
+				if val, isC := ConstCond(r); isC && !val {
+					continue
+				}
+				if isRes(r, 2) {
+					continue // `ok && cmp` may be built as phi(ok, cmp): false when !ok
+				}
+				okRet = false
+			}
+		})
+		want := "limit <= value"
+		if !v.min {
+			want = "value <= limit"
+		}
+		c.Check(okDir && okGuard && okRet, "O17.10", fk(fn)+":compares-value-with-limit", cmp.Pos(),
+			fmt.Sprintf("returns %s (non-strict) of the helper's (value, limit): %v; only where the helper said ok: %v; nothing else is returned but false: %v", want, okDir, okGuard, okRet))
+		// the helper: result 0 is the validated value asserted to its type, result 1 the parsed parameter
+		h := get.Call.StaticCallee()
+		okH := len(h.Params) == 2
+		if okH {
+			fromValue := func(v ssa.Value) bool { // the value parameter, or a type assertion of it
+				v = Strip(v)
+				if ex, ok := v.(*ssa.Extract); ok {
+					v = ex.Tuple
+				}
+				if ta, ok := v.(*ssa.TypeAssert); ok {
+					v = ta.X
+				}
+				return v == ssa.Value(h.Params[0])
+			}
+			seenValue := false
+			for _, ret := range DelegatedReturns(h) {
+				if len(ret.Results) != 3 {
+					okH = false
+					continue
+				}
+				for _, r := range Roots(ret.Results[0], false) {
+					switch {
+					case fromValue(r):
+						seenValue = true
+					case func() bool { _, isK := r.(*ssa.Const); return isK }():
+					case func() bool { _, isA := r.(*ssa.Alloc); return isA }():
+					default:
+						okH = false // the value result has another source (the parsed limit?)
+					}
+				}
+				for _, r := range Roots(ret.Results[1], false) {
+					if fromValue(r) {
+						okH = false // the limit result comes from the validated value
+					}
+				}
+			}
+			okH = okH && seenValue
+		}
+		c.Check(okH, "O17.10", fk(h)+":value-from-the-field-limit-from-the-tag", h.Pos(), "the helper's first result comes from the validated value, its second from the tag parameter")
+	}
+	c.Floor("O17.10", "range validators of core/config", n, 4)
 }
